@@ -59,7 +59,10 @@ def build_driver(name, race=False, tags="verif", extra_overlay=None, timeout=900
     src = os.path.join(HARNESS, name)
     if not os.path.isdir(src):
         raise MachineryError("no harness " + name)
-    os.makedirs(BUILD, exist_ok=True)
+    bdir = BUILD
+    if os.path.realpath(REPO) != "/repo" or os.environ.get("VERIF_WORK"):
+        bdir = os.path.join(WORK, "build")      # scratch-worktree / private runs never share binaries with /repo runs
+    os.makedirs(bdir, exist_ok=True)
     repl = {}
     for root, _dirs, files in os.walk(src):
         for f in files:
@@ -76,10 +79,10 @@ def build_driver(name, race=False, tags="verif", extra_overlay=None, timeout=900
                     repl[os.path.join(REPO, "internal", "zzverif", "common", rel)] = os.path.join(root, f)
     if extra_overlay:
         repl.update(extra_overlay)
-    ov = os.path.join(BUILD, name + (".race" if race else "") + ".overlay.json")
+    ov = os.path.join(bdir, name + (".race" if race else "") + ".overlay.json")
     with open(ov, "w") as fh:
         json.dump({"Replace": repl}, fh)
-    out = os.path.join(BUILD, name + (".race" if race else ""))
+    out = os.path.join(bdir, name + (".race" if race else ""))
     cmd = ["go", "build", "-overlay", ov, "-o", out]
     if tags:
         cmd += ["-tags", tags]
